@@ -175,6 +175,7 @@ where
     | "true" => return .isTrue
     | "nonempty" => return .nonEmpty
     | "eq" => if h : a.size = 2 then return .eq (← parseJson a[1]) else err "bad eq"
+    | "arg" => if h : a.size = 2 then return .argEq (← parseJson a[1]) else err "bad arg"
     | k => err s!"bad cond {k}"
 
 def parseFunc (j : LJson) : Except String Func := do
